@@ -33,8 +33,9 @@
 (*   CliRun                                    Cli                          *)
 (*   SerialApi, ParamsNew, InsertEku, Zeroize,                              *)
 (*   SimpleSelfSigned, Conversions             Api                          *)
+(*   Builders (rustls-cert-gen library)        Builders                     *)
 (***************************************************************************)
-EXTENDS Import, Strings, Pem, KeyLife, PathValidation, Cli, Purity, Outcome, Secrets, TLC, Api
+EXTENDS Import, Strings, Pem, KeyLife, PathValidation, Builders, Purity, Outcome, Secrets, TLC, Api
 
 VARIABLES names, cov, reg
 svars == <<names, cov, reg>>
@@ -177,6 +178,7 @@ ReqOf(ev) ==
      [] ev.op = "Call" -> ReqCall(ev.args, ev.out)
      [] ev.op = "Sweep" -> ReqSweep(ev.args, ev.obs)
      [] ev.op = "Channel" -> ReqChannel(ev.args, ev.obs)
+     [] ev.op = "Builders" -> ReqBuilders(ev.args, ev.out, ev.obs)
      [] ev.op = "SerialApi" -> ReqSerialApi(ev.args, ev.obs)
      [] ev.op = "ParamsNew" -> ReqParamsNew(ev.args, ev.out, ev.obs)
      [] ev.op = "InsertEku" -> ReqInsertEku(ev.args, ev.obs)
